@@ -454,6 +454,122 @@ theorem C05_linear_history_fresh (c : Fl) (qs0 : Stored) (steps : List QLStep) :
     · simp only [qlRun, List.map_cons, qlAttrsAfter]
       rw [h2]; rfl
 
+/-! ### the consumer does not write the quantizer: exports inside a history
+
+  `model_save_quantized_weights` (the anchored consumer) reaches a weight quantizer with the layer weight,
+  calls it once and reads `bits`, `keep_negative`, `integer`, `alpha` and `scale`.  `qbExport` (Model/AutoFx.lean)
+  models that step, `qbRunEv` histories of calls AND exports on one object.  Frame statements: for the object an
+  export is exactly its one call — a frozen object comes out of it IDENTICAL (scale, attributes, flag), a live one
+  with the scale of the exported weight — so every observation made after an export (the exposed scale, the next
+  call, the scale against earlier outputs) is the observation of a history of plain calls, to which
+  `C05_history_fresh` and every `C05_*` clause theorem apply.
+-/
+
+/-- for the quantizer object an export is exactly the one call it makes (same object afterwards, same result) -/
+theorem C05_export_is_one_call (c : Fl) (o : QBObj) (ch : Bool) (shape : List ℕ) (w : List ℚ) :
+    (qbExport c o ch shape w).1 = (qbCall c o ch shape w).1 ∧
+    (qbExport c o ch shape w).2.1 = (qbCall c o ch shape w).2 := ⟨rfl, rfl⟩
+
+/-- a frozen object (post-training scale) leaves a call and an export IDENTICAL: scale, every attribute, the flag -/
+theorem C05_export_keeps_frozen_object (c : Fl) (o : QBObj) (hf : o.frozen = true) (ch : Bool) (shape : List ℕ)
+    (w : List ℚ) :
+    (qbCall c o ch shape w).1 = o ∧ (qbExport c o ch shape w).1 = o := by
+  have h : (qbCall c o ch shape w).1 = o := by
+    cases o with
+    | mk a f sc =>
+      simp only at hf
+      subst hf
+      simp [qbCall]
+  exact ⟨h, h⟩
+
+/-- an export writes no public attribute and never unfreezes -/
+theorem C05_export_keeps_attributes (c : Fl) (o : QBObj) (ch : Bool) (shape : List ℕ) (w : List ℚ) :
+    (qbExport c o ch shape w).1.attrs = o.attrs ∧ (qbExport c o ch shape w).1.frozen = o.frozen ∧
+    (o.frozen = true → (qbExport c o ch shape w).1.scale = o.scale) :=
+  C05_call_keeps_attributes c o ch shape w
+
+/-- the scales entry the export returns is computed from the scale the object exposes AFTER the call
+    (`scale·m_i/m`, a new list), the hardware weight from the returned weight (`weight·m/m_i`), and the
+    returned weight is the quantizer's output -/
+theorem C05_export_reads_exposed_scale (c : Fl) (o : QBObj) (ch : Bool) (shape : List ℕ) (w : List ℚ)
+    (hp : o.attrs.po2 = true) (es : List QElt) (hr : (qbCall c o ch shape w).2 = .ok es) (t : Stored)
+    (ht : (qbCall c o ch shape w).1.scale = some t) :
+    (qbExport c o ch shape w).2.2 = some
+      { weight := es.map fun e => ste c e.x e.y,
+        hw := (es.map fun e => ste c e.x e.y).map fun v =>
+          c.r (c.r (v * (o.attrs.cfg ch).m) / (o.attrs.cfg ch).mi),
+        scales := some ((bcastTo t shape).map fun s => c.r (c.r (s * (o.attrs.cfg ch).mi) / (o.attrs.cfg ch).m)) } := by
+  simp only [qbExport]
+  rw [hr]
+  simp only [hp, if_true]
+  rw [ht]
+
+/-- a history of calls and exports, seen from the object: the history of plain calls on the same tensors -/
+theorem C05_events_are_calls (c : Fl) (evs : List QBEvent) : ∀ o : QBObj,
+    (qbRunEv c o evs).map (fun r => (r.1, r.2.1)) = qbRun c o (evs.map QBEvent.step) := by
+  induction evs with
+  | nil => intro o; simp [qbRunEv, qbRun]
+  | cons e t ih =>
+    intro o
+    cases e with
+    | call s => simp only [qbRunEv, List.map_cons, qbRun, QBEvent.step, ih]
+    | save s =>
+      simp only [qbRunEv, List.map_cons, qbRun, QBEvent.step, ih]
+      rfl
+
+/-- ANY history of calls and exports on one object (ranks, shapes, data formats, re-assigned attributes): every
+    result (the direct calls and the calls the exports make) is the result of a fresh object called once on that
+    tensor, the attributes after every event are the assigned ones, the frozen flag and a frozen scale never
+    change — observations after an export are those of a fresh object -/
+theorem C05_event_history_fresh (c : Fl) (evs : List QBEvent) (o : QBObj) :
+    (qbRunEv c o evs).map (fun r => r.2.1) =
+      qbFresh c o.frozen (if o.frozen then o.scale else none) o.attrs (evs.map QBEvent.step) ∧
+    (qbRunEv c o evs).map (fun r => r.1.attrs) = qbAttrsAfter o.attrs (evs.map QBEvent.step) ∧
+    ∀ r ∈ qbRunEv c o evs, r.1.frozen = o.frozen ∧ (o.frozen = true → r.1.scale = o.scale) := by
+  have hp := C05_events_are_calls c evs o
+  obtain ⟨h1, h2, h3⟩ := C05_history_fresh c (evs.map QBEvent.step) o
+  refine ⟨?_, ?_, ?_⟩
+  · rw [← h1, ← hp]; simp [List.map_map, Function.comp_def]
+  · rw [← h2, ← hp]; simp [List.map_map, Function.comp_def]
+  · intro r hr
+    have : (r.1, r.2.1) ∈ qbRun c o (evs.map QBEvent.step) := by
+      rw [← hp]; exact List.mem_map.mpr ⟨r, hr, rfl⟩
+    exact h3 _ this
+
+/-- a frozen object whose attributes are not re-assigned is the SAME object after every event of any history of
+    calls and exports: `q.scale` read at any later time is the configured post-training scale -/
+theorem C05_frozen_object_constant (c : Fl) (evs : List QBEvent) (hset : ∀ e ∈ evs, e.step.set = none) :
+    ∀ o : QBObj, o.frozen = true → ∀ r ∈ qbRunEv c o evs, r.1 = o := by
+  induction evs with
+  | nil => intro o _ r hr; simp [qbRunEv] at hr
+  | cons e t ih =>
+    intro o hf r hr
+    have he : e.step.set = none := hset e (by simp)
+    have ht : ∀ e' ∈ t, e'.step.set = none := fun e' h' => hset e' (by simp [h'])
+    cases e with
+    | call s =>
+      simp only [QBEvent.step] at he
+      have hk : (qbCall c (o.reconf s.set) s.chLast s.shape s.x).1 = o := by
+        rw [he]; exact (C05_export_keeps_frozen_object c _ hf _ _ _).1
+      simp only [qbRunEv, List.mem_cons] at hr
+      rcases hr with rfl | hr
+      · exact hk
+      · rw [hk] at hr; exact ih ht o hf r hr
+    | save s =>
+      simp only [QBEvent.step] at he
+      have hk : (qbExport c (o.reconf s.set) s.chLast s.shape s.x).1 = o := by
+        rw [he]; exact (C05_export_keeps_frozen_object c _ hf _ _ _).2
+      simp only [qbRunEv, List.mem_cons] at hr
+      rcases hr with rfl | hr
+      · exact hk
+      · rw [hk] at hr; exact ih ht o hf r hr
+
+/-- quantized_linear as a weight quantizer: for the object the export is its one call (no attribute written,
+    result = `qlAuto` of the weight) -/
+theorem C05_linear_export_is_one_call (c : Fl) (o : QLObj) (ch : Bool) (shape : List ℕ) (w : List ℚ) :
+    (qlExport c o ch shape w).1.attrs = o.attrs ∧ (qlExport c o ch shape w).2 = qlAuto c (o.attrs.cfg ch) shape w :=
+  ⟨rfl, rfl⟩
+
 /-! ### non-vacuity -/
 
 example : ∃ es, qbAuto (Fl.exact (1/10000000)) ⟨4, 0, true, false, ⟨true, .none, .none⟩, none, none⟩ none [2, 2]
@@ -471,5 +587,13 @@ example : (1 : ℤ) ≤ (⟨4, 0, true, false, ⟨true, .none, .none⟩, none, n
 example : (qbRun (Fl.exact (1/10000000)) ⟨⟨4, 0, true, false, .none, .none, none, none⟩, false, none⟩
     [⟨none, true, [2, 2], [0, 1/2, 0, -1]⟩, ⟨none, false, [2, 1, 2], [1, 1/2, 3, -1]⟩]).map (fun r => r.2.toOption.isSome)
     = [true, true] := by decide
+
+/-- a frozen quantizer (post-training scales 2 and 1) called, exported inside a model, called again: all
+    three results exist, the second call equals the first, the stored scale is the configured one throughout -/
+example : let o : QBObj := ⟨⟨4, 1, true, true, .none, .none, none, none⟩, true, some ⟨[1, 2], [2, 1]⟩⟩
+    let s : QBStep := ⟨none, true, [2, 2], [0, 1/2, 3/4, -1]⟩
+    let r := qbRunEv (Fl.exact (1/10000000)) o [.call s, .save s, .call s]
+    (r.map fun t => t.2.1.toOption.isSome) = [true, true, true] ∧
+    (r.map fun t => t.1.scale.map (·.vals)) = [some [2, 1], some [2, 1], some [2, 1]] := by decide
 
 end QKV.Props.C05
